@@ -13,9 +13,10 @@
   "the listing shows exactly the existing objects" is a theorem that needs `Wf`.
 
   `atomic` selects the behaviour of `CREATE OR REPLACE TABLE … AS <query>` when the query fails
-  at run time:  `false` = the code as it is (the old object is deregistered BEFORE the query
-  runs, so a failing statement leaves the name dropped);  `true` = the proposed repair (evaluate
-  first, swap after).  The compiled driver uses `false`.
+  at run time:  `true` = the code as it is now (/repo commit 5758ed9: evaluate first, swap after);
+  `false` = the pinned upstream code (the old object was deregistered BEFORE the query ran, so a
+  failing statement left the name dropped) — kept for the witness theorem.  The compiled driver
+  uses `true`.
   Core Lean only.
 -/
 namespace DfModel.Sm.Catalog
@@ -191,9 +192,10 @@ def execCreateTable (atomic : Bool) (s : State) (k : Key) (ine orr : Bool) (cols
   match ine, orr, lookup s k with
   | true, false, some _ => (s, .skipped)
   | false, true, some _ =>
-    if atomic && !runs then (s, .err .runtime)       -- repair: evaluate first, swap after
+    if atomic && !runs then (s, .err .runtime)       -- 5758ed9: evaluate first, swap after
     else
-      -- `self.deregister_table(name)?` THEN collect THEN `register_table`
+      -- upstream: `self.deregister_table(name)?` THEN collect THEN `register_table`;
+      -- now: collect (succeeded) THEN deregister THEN register — the same result when `runs`
       let r := createFresh (removeObj s k) e runs
       (r.1, relabel r.2)
   | true, true, some _ => (s, .err .conflict)
